@@ -255,7 +255,37 @@ def derived(check, tier, seed):
     s.done()
 
 
+
+def long_inputs(check, tier):
+    from bounded.common import long_values
+    s = Suite(check, "C10.long", "width, width_at_offset and column ranges / index forms of values with thousands of runs against the column model",
+              bound="<= 6000 characters")
+    for label, v in long_values():
+        txt = v.s
+        w = sum(wcwidth(c) for c in txt)
+        s.case((label, "w"), sample=label)
+        try:
+            if v.width != w:
+                s.fail("C10.width.long", dict(value=label), f"width={v.width}, columns={w}")
+            for n in (0, 1, len(txt) // 2, len(txt)):
+                if v.width_at_offset(n) != sum(wcwidth(c) for c in txt[:n]):
+                    s.fail("C10.width_at_offset.long", dict(value=label, n=n), f"width_at_offset({n})={v.width_at_offset(n)}")
+        except Exception as e:      # noqa: BLE001
+            s.fail("C10.width.long", dict(value=label), f"raised {type(e).__name__}: {e}")
+        for (a, b) in ((0, w), (1, w - 1), (w // 2, w // 2 + 3), (w - 2, w + 5), (3, 4), (w, w + 1)):
+            s.case((label, a, b))
+            d = cut_case(v, a, b)
+            if d:
+                s.fail("C10.width_aware_slice.long", dict(value=label, a=a, b=b), d[:300])
+        for ix in (-1, 0, w - 1, -w, slice(-3, None), slice(None, -w + 2), slice(None, None)):
+            s.case((label, repr(ix)))
+            d = index_case(v, w, ix)
+            if d:
+                s.fail("C10.width_aware_slice.long", dict(value=label, index=repr(ix)), d[:300])
+    s.done()
+
 def run(check, tier, seed):
+    long_inputs(check, tier)
     lemma_selftest(check, tier)
     for c in CONTRACTS:
         verify(c, tier, check)
